@@ -19,7 +19,8 @@
      ainit <n> | aadd <s> <newname> | aread <path> | aget <s> | alist | afree      one user crystal array at a time
      cfun <k> <crystal> <E> <h> <k> <l> <debye>   Bragg_angle, Q_scattering_amplitude, F_H, F_H_Partial, UnitCellVolume, dSpacing on a copy
      af <Z> <E> <q> <debye>                 Atomic_Factors
-     err <k>                                xrl_error object life cycles (set / propagate / clear)
+     err <k>                                xrl_error object life cycles (set / propagate / clear); k = 6..11: a later failing call
+                                            is handed a slot that still holds an error (rc = 1 iff that error object is untouched)
    A line prefixed `N:` runs the same operation WITHOUT an error slot.
    Answer:  `<rc> d=<live blocks after the operation and its releases minus before> e=<0|1 error object was set> c=<error code|-1> m=<message length> v=<x + bits of the numeric result | ->`
    (rc: 1/0 = non-NULL / NULL for constructors, value != 0 for numeric functions, count for lists) */
@@ -174,6 +175,22 @@ int main(void) {
       else if (k == 3) { xrl_set_error_literal(&e2, XRL_ERROR_MEMORY, "dropped"); xrl_propagate_error(NULL, e2); }
       else if (k == 4) { xrl_set_error_literal(NULL, XRL_ERROR_MEMORY, "nowhere"); xrl_clear_error(NULL); xrl_clear_error(&e); }
       else if (k == 5) { xrl_set_error(&e, XRL_ERROR_TYPE, "%s", "copy me"); xrl_error *c = xrl_error_copy(e); xrl_error_free(c); }
+      else if (k >= 6 && k <= 11) {
+        /* an error object handed back by one call must not be affected by later calls: the slot still holds it when a later
+           call fails (directly, or one level down through a temporary error that is propagated) */
+        xrl_set_error_literal(&e, XRL_ERROR_RUNTIME, "first error");
+        xrl_error *p0 = e; int c0 = (int)e->code; double f0 = 0, f1 = 0, f2 = 0;
+        if (k == 6) DCS_Compt(26, 10.0, 0.0, &e);
+        else if (k == 7) CS_Total_CP("H2O", -1.0, &e);
+        else if (k == 8) Atomic_Factors(-1, 8.0, 1.0, 1.0, &f0, &f1, &f2, &e);
+        else if (k == 9) AtomicWeight(-1, &e);
+        else if (k == 10) { Crystal_Struct *c = Crystal_GetCrystal("Si", NULL, NULL); Crystal_F_H_StructureFactor(c, -1.0, 1, 1, 1, 1.0, 1.0, &e); Crystal_Free(c); }
+        else CompoundParser("(", &e);
+        rc = (e == p0 && e != NULL && (int)e->code == c0 && e->message && !strcmp(e->message, "first error"));
+        had = fin(&e);
+        if (arr) printf("%ld d=%s e=%d", rc, "open", had); else printf("%ld d=%ld e=%d", rc, live_blocks - base, had);
+        tail(0, 0.0); continue;
+      }
       rc = e != NULL;
     }
     else { printf("bad-op\n"); continue; }
